@@ -7,13 +7,16 @@ ROUND = os.environ.get('SEED_ROUND', '')      # e.g. '3': variants A,B are store
 MAP = {'A': 'A', 'B': 'B'}
 if ROUND == '3':
     MAP = {'A': 'C', 'B': 'D'}
+if ROUND == '4':
+    MAP = {'A': 'E', 'B': 'F'}
 for p in sys.argv[1:]:
     notes=open('/tmp/wt/%s/seeded/NOTES.md'%p).read()
+    unconfirmed = []
     for v0 in 'AB':
         v = MAP[v0]
         ver=json.load(open('/verif/work/verify/%s-%s.json'%(p,v)))
         if not ver.get('confirmed'):
-            print('skip unconfirmed',p,v); continue
+            print('skip unconfirmed',p,v); unconfirmed.append(v); continue
         d=os.path.join(base,'%s-%s'%(p,v)); os.makedirs(d,exist_ok=True)
         shutil.copy('/tmp/wt/%s/seeded/variant%s.diff'%(p,v0), os.path.join(d,'patch.diff'))
         shutil.copy('/tmp/wt/%s/seeded/demo%s.rs'%(p,v0), os.path.join(d,'demo.rs'))
@@ -26,5 +29,8 @@ for p in sys.argv[1:]:
               'verification':ver}
         json.dump(meta,open(os.path.join(d,'meta.json'),'w'),indent=1)
     open(os.path.join(base,'%s-NOTES%s.md'%(p, ('-round'+ROUND) if ROUND else '')),'w').write(notes)
-    os.system('git -C /repo worktree remove --force /tmp/wt/%s'%p)
+    if unconfirmed:
+        print('worktree /tmp/wt/%s kept: look at the unconfirmed variant(s) %s, then remove it' % (p, unconfirmed))
+    else:
+        os.system('git -C /repo worktree remove --force /tmp/wt/%s'%p)
     print('harvested',p)
